@@ -71,6 +71,11 @@ def extra(rep, impl_exe, model_exe, rng, tier):
     # (a) one long history in one process vs each call alone in a fresh process
     n = 150 if tier == "quick" else 1500
     base = J.jobs(rng, n)
+    # Reed-Solomon blocks whose last division step has scale 1, framed by ordinary contents of the same size
+    import rs_py
+    for c in rs_py.dm_scale_one_contents(rng, 2 if tier == "quick" else 8):
+        ref = "enc dm %s" % J.hx(bytes(rng.randrange(65, 91) for _ in range(len(c))))
+        base += [ref, "enc dm %s" % J.hx(c), ref]
     hist = base + base[:]
     second = base[:]
     rng.shuffle(second)
@@ -145,6 +150,10 @@ def extra(rep, impl_exe, model_exe, rng, tier):
         reps.append("rep 8 qr %d %d %s" % (rng.randrange(4), rng.choice([0, 0, 1, 2, 3]) if t.isdigit() else rng.choice([0, 0, 2, 3]), J.hx(t)))
     for j in J.jobs(rng, 60 if tier == "quick" else 600, scale_frac=0.0):
         reps.append("rep 4 " + j[4:])
+    # contents whose two best QR masks have exactly the same penalty (found with the model, corpus/qr_ties.txt):
+    # whatever decides a tie must not depend on scheduling or iteration order
+    for j in held.qr_tie_jobs():
+        reps.append("rep %d %s" % (24 if len(j) < 400 else (8 if tier == "quick" else 30), j))
     routs = run_lines(impl_exe, reps, shards=NCPU)
     rep.cov["determinism_calls"] = len(reps)
     for l, o in zip(reps, routs):
